@@ -332,10 +332,10 @@ rf64_read_header (SF_PRIVATE *psf, int *blockalign, int *framesperblock)
 					if (!psf->sf.seekable || psf->dataoffset < 0)
 						break ;
 
-					/* Seek past data and continue reading header. */
-					psf_fseek (psf, psf->datalength, SEEK_CUR) ;
+					/* Seek past data (and the pad byte of an odd length) and continue reading header. */
+					psf_fseek (psf, psf->datalength + (psf->datalength & 1), SEEK_CUR) ;
 
-					if (psf_ftell (psf) != psf->datalength + psf->dataoffset)
+					if (psf_ftell (psf) != psf->datalength + (psf->datalength & 1) + psf->dataoffset)
 						psf_log_printf (psf, "  *** psf_fseek past end error ***\n") ;
 					} ;
 				break ;
